@@ -30,6 +30,7 @@ import (
 	"fmt"
 	"io"
 	"log"
+	"runtime"
 	"sync"
 
 	"github.com/tjfoc/gmsm/sm4"
@@ -68,11 +69,11 @@ func (t *toyBlock) Encrypt(dst, src []byte) {
 	if len(dst) < t.bs {
 		panic("toy: output not full block")
 	}
-	tmp := make([]byte, t.bs)
+	var tmp [64]byte
 	for i := 0; i < t.bs; i++ {
 		tmp[i] = t.mul*src[i] + t.key[i%len(t.key)] + src[(i+1)%t.bs] + byte(i)
 	}
-	copy(dst, tmp)
+	copy(dst, tmp[:t.bs])
 }
 func (t *toyBlock) Decrypt(dst, src []byte) { panic("toy: Decrypt is never used by CFB") }
 
@@ -588,7 +589,23 @@ func gen(a Args, out *Out) {
 	// the Go-side sweeps run in the background while the cases are generated
 	finishToy := toySweep(out, rng.Fork())
 	finishFactory := factorySweep(a, out, rng.Fork())
-	finishSweeps := func() { finishToy(); finishFactory() }
+	finishLong := longSweep(a, out, rng.Fork())
+	serialRng := rng.Fork()
+	finishSweeps := func() { finishToy(); finishFactory(); finishLong(); longSweepSerial(out, serialRng) }
+	// long messages through the model too (extracted runner only: the lines exceed the in-Coq limit)
+	nlong := 1
+	if a.Thorough() {
+		nlong = 6
+	}
+	for _, bs := range []int{8, 16} {
+		for i := 0; i < nlong; i++ {
+			n := 32768 + rng.Intn(6000)
+			if i > 0 {
+				n = 1<<uint(15+i%3) + rng.PickInt(0, 1, -1, bs-1, bs, bs+1, 8*bs-1)
+			}
+			g.session(fmt.Sprintf("toy%d-long", bs), bs, []int{n}, rng.Range(bs, 48), bs, 2*bs)
+		}
+	}
 	var lens []int
 	if a.Thorough() {
 		for n := 0; n <= 4097; n++ {
@@ -729,7 +746,7 @@ func slicingCases(a Args, out *Out, rng *Rng) {
 			key, iv := rng.Bytes(kl), rng.Bytes(48)
 			flip := func(b []byte, i int) []byte {
 				c := exact(b)
-				c[i] ^= byte(1 << uint(rng.Intn(8)))
+				c[i] ^= byte(2 << uint(rng.Intn(7))) // never bit 0: DES ignores the parity bit of every key byte
 				return c
 			}
 			emit := func(kb, ib []byte, what string) {
@@ -754,6 +771,201 @@ func slicingCases(a Args, out *Out, rng *Rng) {
 			}
 		}
 	}
+}
+
+// ---- long messages (the property: "all message lengths 0..4096 exhaustively and sampled beyond") ----
+
+// lengths 4097..8192 sampled, then 2^k and 2^k +- {1, bs-1, bs, bs+1} for k = 13..20 (1 MiB).
+// quick: all nine offsets for k <= 16, a seed-chosen pair of offsets above; thorough: all.
+func longLengths(bs int, thorough bool, rng *Rng) []int {
+	var l []int
+	ns := 12
+	if thorough {
+		ns = 200
+	}
+	for i := 0; i < ns; i++ {
+		l = append(l, rng.Range(4097, 8192))
+	}
+	offs := []int{0, 1, -1, bs - 1, -(bs - 1), bs, -bs, bs + 1, -(bs + 1)}
+	for k := 13; k <= 20; k++ {
+		if thorough || k <= 16 {
+			for _, o := range offs {
+				l = append(l, 1<<uint(k)+o)
+			}
+		} else {
+			l = append(l, 1<<uint(k)+offs[rng.Intn(len(offs))], 1<<uint(k)+offs[rng.Intn(len(offs))])
+		}
+	}
+	return l
+}
+
+// a few long lengths for the GOMAXPROCS(1) pass
+func longLengthsSerial(bs int, rng *Rng) []int {
+	return []int{1<<15 + bs + 1, 1<<16 - 1, 1<<17 + rng.Intn(2*bs), 1<<18 - bs + 1}
+}
+
+// toy block through the unrolled code: in place and into a separate destination, both
+// directions against crypto/cipher CFB, round trip; scratch buffers carried.
+func toyLong(out *acc, rng *Rng, bs int, lens []int, tag string) {
+	blk := &toyBlock{bs: bs, mul: byte(rng.Intn(256)) | 1, key: rng.Bytes(bs)}
+	iv := rng.Bytes(rng.Range(bs, 48))
+	encbuf, decbuf := rng.Bytes(bs), rng.Bytes(2*bs)
+	for _, n := range lens {
+		seed := uint64(rng.Intn(1 << 16))
+		msg := lcg(seed, n)
+		in := List(Int(0), Int(int64(bs)), Int(int64(blk.mul)), Bytes(blk.key), Bytes(iv), Bytes(encbuf), Bytes(decbuf),
+			List(opEnc(seed, n), opDecOf(0)))
+		want := make([]byte, n)
+		stdcipher.NewCFBEncrypter(blk, iv[:bs]).XORKeyStream(want, msg)
+		ct := append([]byte{}, msg...)
+		ct2 := make([]byte, n)
+		back := make([]byte, n)
+		back2 := make([]byte, n)
+		stdback := make([]byte, n)
+		p, _ := Catch(func() {
+			xcipher.VerifEncrypt(blk, iv, ct, ct, encbuf)
+			xcipher.VerifEncrypt(blk, iv, ct2, msg, encbuf)
+			copy(back, ct)
+			xcipher.VerifDecrypt(blk, iv, back, back, decbuf)
+			xcipher.VerifDecrypt(blk, iv, back2, want, decbuf)
+			stdcipher.NewCFBDecrypter(blk, iv[:bs]).XORKeyStream(stdback, ct)
+		})
+		out.GoChecked += 5
+		sig, what := "", ""
+		switch {
+		case p:
+			sig, what = "panic", "panics"
+		case !bytes.Equal(ct, want):
+			sig, what = "stdlib-cfb", "in-place ciphertext differs from crypto/cipher CFB"
+		case !bytes.Equal(ct2, want):
+			sig, what = "separate-dst", "ciphertext into a separate destination differs from crypto/cipher CFB"
+		case !bytes.Equal(back, msg):
+			sig, what = "roundtrip", "in-place decrypt(encrypt(m)) != m"
+		case !bytes.Equal(back2, msg):
+			sig, what = "separate-dst", "decryption into a separate destination does not recover the message"
+		case !bytes.Equal(stdback, msg):
+			sig, what = "stdlib-cfb", "crypto/cipher CFB decrypter does not recover the message"
+		}
+		if sig != "" {
+			out.violation(fmt.Sprintf("C16/%s/toy%d", sig, bs), fmt.Sprintf("toy %d-byte block, long message of %d bytes (%s): %s", bs, n, tag, what), in)
+		}
+		out.Count(fmt.Sprintf("long:toy%d:%s", bs, tag))
+	}
+}
+
+// factory-made ciphers on long messages: Encrypt in place on one instance vs the stock
+// implementation, Decrypt on a second instance, stock decrypter on the ciphertext.
+func factoryLong(out *acc, rng *Rng, name string, lens []int, tag string) {
+	nm := name
+	if nm == "" {
+		nm = "default"
+	}
+	key := rng.Bytes(32)
+	iv := rng.Bytes(rng.Range(16, 48))
+	prev := List(Uint(0), Int(0))
+	var enc, dec xcipher.BlockCryptor
+	if p, _ := Catch(func() {
+		enc = xcipher.NewCrypt(name, exact(key), exact(iv))
+		dec = xcipher.NewCrypt(name, exact(key), exact(iv))
+	}); p {
+		out.violation("C16/factory/"+nm+"/panic", "factory panics", List(Int(3), Str(name), Bytes(key), Bytes(iv), List(prev)))
+		return
+	}
+	for _, n := range lens {
+		seed := uint64(rng.Intn(1 << 16))
+		msg := lcg(seed, n)
+		in := List(Int(3), Str(name), Bytes(key), Bytes(iv), List(prev, List(Uint(seed), Int(int64(n)))))
+		want, err := reference(name, key, iv, msg)
+		var ct, back []byte
+		p, _ := Catch(func() {
+			ct = append([]byte{}, enc.Encrypt(append([]byte(nil), msg...))...)
+			back = append([]byte{}, dec.Decrypt(append([]byte(nil), ct...))...)
+		})
+		out.GoChecked += 2
+		sig, what := "", ""
+		switch {
+		case err != nil:
+			sig, what = "reference", err.Error()
+		case p:
+			sig, what = "panic", "Encrypt / Decrypt panics"
+		case !bytes.Equal(ct, want):
+			sig, what = "stock-cfb", "ciphertext differs from the stock implementation"
+		case !bytes.Equal(back, msg):
+			sig, what = "roundtrip", "decrypt(encrypt(m)) != m across two instances"
+		}
+		if sig == "" {
+			if f, ok := refBlocks[name]; ok || (name != "salsa20" && name != "none") {
+				if !ok {
+					f = refBlocks["aes-256"]
+				}
+				blk, _ := f(key)
+				stdback := make([]byte, n)
+				stdcipher.NewCFBDecrypter(blk, iv[:blk.BlockSize()]).XORKeyStream(stdback, ct)
+				out.GoChecked++
+				if !bytes.Equal(stdback, msg) {
+					sig, what = "stock-cfb-decrypt", "crypto/cipher CFB decrypter does not recover the message"
+				}
+			}
+		}
+		if sig != "" {
+			out.violation("C16/factory/"+nm+"/"+sig, fmt.Sprintf("cipher %q, long message of %d bytes (%s): %s", name, n, tag, what), in)
+			return
+		}
+		prev = List(Uint(seed), Int(int64(n)))
+		out.Count("long:" + nm + ":" + tag)
+	}
+}
+
+func blockSizeOf(name string) int {
+	if name == "3des" || name == "xtea" {
+		return 8
+	}
+	return 16
+}
+
+// long sweep, default GOMAXPROCS: one worker per toy block size and per factory name
+func longSweep(a Args, out *Out, rng0 *Rng) func() {
+	var wg sync.WaitGroup
+	var accs []*acc
+	spawn := func(f func(out *acc, rng *Rng)) {
+		ac := &acc{}
+		accs = append(accs, ac)
+		wg.Add(1)
+		go func(rng *Rng) { defer wg.Done(); f(ac, rng) }(rng0.Fork())
+	}
+	for _, bs := range []int{8, 16} {
+		bs := bs
+		spawn(func(out *acc, rng *Rng) { toyLong(out, rng, bs, longLengths(bs, a.Thorough(), rng), "default-procs") })
+	}
+	for _, rc := range factoryNames {
+		name := rc.name
+		spawn(func(out *acc, rng *Rng) {
+			factoryLong(out, rng, name, longLengths(blockSizeOf(name), a.Thorough(), rng), "default-procs")
+		})
+	}
+	return func() {
+		wg.Wait()
+		for _, ac := range accs {
+			ac.merge(out)
+		}
+		out.Note("Go-side long sweep: toy blocks (in place and separate destination) and every factory name on lengths 4097..8192 sampled and 2^k, 2^k +- {1, bs-1, bs, bs+1} for k = 13..20 (quick: all offsets up to 2^16, two per k above), vs crypto/cipher CFB in both directions and round trip across two instances")
+	}
+}
+
+// the same code paths with a single P (a cipher that hands long messages to goroutines
+// behaves differently when they cannot run in parallel); runs after everything else
+func longSweepSerial(out *Out, rng *Rng) {
+	old := runtime.GOMAXPROCS(1)
+	defer runtime.GOMAXPROCS(old)
+	ac := &acc{}
+	for _, bs := range []int{8, 16} {
+		toyLong(ac, rng, bs, longLengthsSerial(bs, rng), "GOMAXPROCS=1")
+	}
+	for _, rc := range factoryNames {
+		factoryLong(ac, rng, rc.name, longLengthsSerial(blockSizeOf(rc.name), rng), "GOMAXPROCS=1")
+	}
+	ac.merge(out)
+	out.Note("Go-side long sweep repeated with GOMAXPROCS=1 on lengths 2^15+bs+1, 2^16-1, ~2^17, 2^18-bs+1")
 }
 
 // ---- Go-side sweep over the factory ----
